@@ -458,14 +458,18 @@ Qed.
 
 Hypothesis Htomb : c_tomb c = true.
 
-Lemma store_fst p ver m f :
-  store c p ver m f = (p, ver, false) \/
-  (p_rows (fst (fst (store c p ver m f))) = put_all c (m_names m) (p_rows p) /\
-   (p_ver (fst (fst (store c p ver m f))) = p_ver p \/ p_ver (fst (fst (store c p ver m f))) = 1)).
-Proof. unfold store. destruct f; cbn; auto; destruct (ver =? 1); cbn; auto. Qed.
+(* the code as pinned: Rename writes its rows with the one PutBatch of store() *)
+Hypothesis Hatomic : c_atomic c = true.
 
-Lemma store_ver p ver m f : p_ver p = 1 -> p_ver (fst (fst (store c p ver m f))) = 1.
-Proof. intros H. unfold store. destruct f; cbn; auto; destruct (ver =? 1); cbn; auto. Qed.
+Lemma exec_atomic p es f :
+  let ws := WBatch es :: (if p_ver p =? 1 then [] else [WVer]) in
+  exec_writes c true f 1 ws p = (p, false) \/
+  (p_rows (fst (exec_writes c true f 1 ws p)) = put_all c es (p_rows p) /\
+   (p_ver (fst (exec_writes c true f 1 ws p)) = p_ver p \/ p_ver (fst (exec_writes c true f 1 ws p)) = 1)).
+Proof.
+  cbn zeta. destruct (p_ver p =? 1); destruct f as [| | |j|j]; cbn;
+    repeat match goal with |- context [if ?b then _ else _] => destruct b; cbn end; auto.
+Qed.
 
 Lemma load0_spec rs :
   rows_ok c rs ->
@@ -497,9 +501,9 @@ Proof.
   destruct (load0_spec (p_rows p) Hrows) as (m & Hl & Hok & Hread0). rewrite Hl. cbn [negb]. cbn iota.
   destruct (sm_get old (m_names m)) as [id|] eqn:Eo; [|left; split; [reflexivity|discriminate]].
   destruct (sm_get new (m_names m)) eqn:En; [left; split; [reflexivity|discriminate]|].
-  set (m' := mkMem _ _ _).
-  pose proof (store_fst p (p_ver p) m' f) as Hsf.
-  destruct (store c p (p_ver p) m' f) as [[p1 ver1] ok]. cbn [fst snd] in *.
+  rewrite Hatomic.
+  pose proof (exec_atomic p (sm_put new id (sm_put old 0 (m_names m))) f) as Hsf. cbn zeta in Hsf.
+  destruct (exec_writes c true f 1 _ p) as [p1 ok]. cbn [fst snd] in *.
   destruct Hsf as [Ef|[Ef Hver]]; [left; inversion Ef; subst; split; [reflexivity|discriminate]|right].
   apply Hread0 in Eo. destruct Eo as [Eo Hsk].
   exists id. split; [exact Eon|]. split; [exact Eo|]. split; [exact Hsk|].
@@ -510,7 +514,7 @@ Proof.
   assert (Hs' : sorted (sm_put new id (sm_put old 0 (m_names m)))) by (repeat apply sm_put_sorted; exact Hs).
   assert (Hold_m : sm_get old (m_names m) = Some id) by (apply Hread0; split; assumption).
   split; [|split; [rewrite Ef; apply put_all_sorted; exact Hsr | exact Hver]].
-  intros n. rewrite Ef. subst m'. cbn [m_names].
+  intros n. rewrite Ef.
   destruct (put_all_get (sm_put new id (sm_put old 0 (m_names m))) (p_rows p)) as [H1 H2].
   - apply (sorted_NoDup_keys _ Hs').
   - intros k v Hin. apply (sm_get_In k v _ Hs') in Hin. rewrite !sm_get_put in Hin.
@@ -571,6 +575,21 @@ Proof.
   - destruct (bytes_eq_dec old new); [contradiction|]. destruct (bytes_eq_dec old old); [reflexivity|contradiction].
 Qed.
 
+
+(* T (all or nothing): whatever storage call of the Rename fails, or after whichever the process
+   stops, the rows are either untouched or completely renamed *)
+Theorem rename_all_or_nothing p old new f :
+  rows_ok c (p_rows p) ->
+  p_rows (fst (rename c p old new f)) = p_rows p \/
+  (exists id, sm_get old (p_rows p) = Some id /\ skip c id = false /\
+     forall n, sm_get n (p_rows (fst (rename c p old new f))) =
+               if bytes_eq_dec n new then Some id else if bytes_eq_dec n old then Some 0 else sm_get n (p_rows p)).
+Proof.
+  intros Hrows. destruct (rename_cases p old new f Hrows) as [[E _]|(id & _ & Ho & Hsk & _ & Hget & _)].
+  - left. rewrite E. reflexivity.
+  - right. exists id. split; [exact Ho|split; [exact Hsk|exact Hget]].
+Qed.
+
 End Registry.
 
 (* ---------- the application ---------- *)
@@ -585,6 +604,7 @@ Lemma cfg_s_read : c_needver cfg_s = false. Proof. reflexivity. Qed.
 Lemma cfg_q_late : c_late cfg_q = true. Proof. reflexivity. Qed.
 Lemma cfg_c_late : c_late cfg_c = true. Proof. reflexivity. Qed.
 Lemma cfg_s_late : c_late cfg_s = true. Proof. reflexivity. Qed.
+Lemma cfg_q_atomic : c_atomic cfg_q = true. Proof. reflexivity. Qed.
 
 Definition sys_ok (s : sys) : Prop :=
   rows_ok cfg_q (p_rows (s_q s)) /\ rows_ok cfg_c (p_rows (s_c s)) /\ rows_ok cfg_s (p_rows (s_s s)).
@@ -725,10 +745,10 @@ Proof.
       destruct (prepares_step false (s, pr) _ qn cn sn Hinv Hh1 (P_retry (s, pr) qn cn sn f Erdy)) as (pr0 & f0 & E & Hv0).
       rewrite E. cbn [fst snd] in *. destruct (run_start s pr0 qn cn sn f0) as [[s' pr'] o] eqn:Er.
       destruct (run_start_spec _ _ _ _ _ _ _ _ _ Hok Hv0 Er) as (H1 & H2 & _). split; [exact H1|intros _; exact H2].
-  - cbn. destruct (rename cfg_q (s_q s) old new (fault_for f 0)) as [q' code] eqn:Er. cbn.
+  - cbn. destruct (rename cfg_q (s_q s) old new (rn_fault_for f)) as [q' code] eqn:Er. cbn.
     split; [|discriminate]. destruct Hok as (Hq & Hc & Hs). split; [|split; [exact Hc|exact Hs]]. cbn.
-    replace q' with (fst (rename cfg_q (s_q s) old new (fault_for f 0))) by (rewrite Er; reflexivity).
-    apply rename_rows_ok; auto using cfg_q_wf, cfg_q_read.
+    replace q' with (fst (rename cfg_q (s_q s) old new (rn_fault_for f))) by (rewrite Er; reflexivity).
+    apply rename_rows_ok; auto using cfg_q_wf, cfg_q_read, cfg_q_atomic.
 Qed.
 
 Theorem sys_run_inv l : forall b st, inv b st -> hist_ok b l -> inv (flag_after b l) (sys_run st l).
@@ -764,11 +784,11 @@ Proof.
   - destruct (pr_ready (snd st)) eqn:Erdy.
     + destruct st as [s pr]. cbn in *. rewrite Erdy. exact Hg.
     + apply (Hprep qn cn sn). constructor. exact Erdy.
-  - destruct st as [s pr]. cbn in *. destruct (rename cfg_q (s_q s) old new (fault_for f 0)) as [q' code] eqn:Er. cbn.
+  - destruct st as [s pr]. cbn in *. destruct (rename cfg_q (s_q s) old new (rn_fault_for f)) as [q' code] eqn:Er. cbn.
     unfold sel, cfg_of in *. cbn. destruct (r =? 0) eqn:E0; [|exact Hg].
     apply N.eqb_eq in E0.
-    replace q' with (fst (rename cfg_q (s_q s) old new (fault_for f 0))) by (rewrite Er; reflexivity).
-    destruct Hok as (Hq & _). apply rename_stable; auto using cfg_q_wf, cfg_q_read.
+    replace q' with (fst (rename cfg_q (s_q s) old new (rn_fault_for f))) by (rewrite Er; reflexivity).
+    destruct Hok as (Hq & _). apply rename_stable; auto using cfg_q_wf, cfg_q_read, cfg_q_atomic.
     intros ->. apply (Hnr E0 new f). reflexivity.
 Qed.
 
